@@ -836,6 +836,47 @@ func exprSize(e *Expr) int {
 	return n
 }
 
+// injectInterning makes 1-3 relations anywhere in the model repeat the operator
+// rewrite of another relation (keeping their own type restrictions: the same
+// rewrite means something else in another relation or type) and renders every
+// equal operator subtree of the model as one shared message.
+func injectInterning(r *rng, m *Model) bool {
+	type at struct {
+		t   *Type
+		rel *Relation
+	}
+	var ops, all []at
+	for _, t := range m.Types {
+		for _, rel := range t.Relations {
+			all = append(all, at{t, rel})
+			if rel.Expr != nil && rel.Expr.isOp() && exprSize(rel.Expr) <= 12 {
+				ops = append(ops, at{t, rel})
+			}
+		}
+	}
+	if len(ops) == 0 || len(all) < 2 {
+		return false
+	}
+	src := ops[r.intn(len(ops))]
+	n := 0
+	for i := 0; i < 1+r.intn(3); i++ {
+		dst := all[r.intn(len(all))]
+		if dst.rel == src.rel || dst.rel.ShareWith != "" || src.rel.ShareWith != "" {
+			continue
+		}
+		dst.rel.Expr = src.rel.Expr.clone()
+		if len(dst.rel.Direct) == 0 {
+			dst.rel.Direct = append([]Ref(nil), src.rel.Direct...)
+		}
+		n++
+	}
+	if n == 0 {
+		return false
+	}
+	m.Intern = true
+	return true
+}
+
 func injectAliasing(r *rng, m *Model) bool {
 	done := false
 	dups := 0
